@@ -122,6 +122,10 @@ def core_variants():
                 add('%s_%s_%s' % (b, t, mode), b, feats, topts + mopts)
         add('%s_Cem_B_rej' % b, b, FULL, ['batch'])
         add('%s_Cem_I_rej' % b, b, FULL, ['interactive'])
+    # variable trailing context without yyreject(): the generator's `reject` is set but `real_reject` is not
+    for b in ('nr', 'r', 'cxx', 'c99'):
+        add('%s_vartrail_B' % b, b, NOREJ + ('vartrail',), ['batch'])
+        add('%s_vartrail_I' % b, b, NOREJ + ('vartrail',), ['interactive'])
     add('nr_Cfa', 'nr', PLAIN, ['full', 'align'])
     add('nr_Cf_bol', 'nr', PLAIN + ('bol',), ['full'])
     add('nr_CF_bol', 'nr', PLAIN + ('bol',), ['fast'], note='D1')
